@@ -134,6 +134,8 @@ class Verifier(HeapMaps):
         params = dict(binding)
         self.top_params = params
         self.step_count = 0
+        if c.labels.get("maxgen"):
+            self.MAXGEN = c.labels["maxgen"]     # deeper term generation for the instantiation of universals (witnesses of existential goals)
         try:
             try:
                 self.exec_block(node.body)
